@@ -9,10 +9,49 @@ import sys
 VERIF = os.path.dirname(os.path.abspath(__file__))
 
 
+def z80_finder(pid, failure, repo, seed):
+    """run the native differential tool (real Z80::emulate vs reference, same RecBus vocabulary)
+    on a scratch copy and return the first mismatch that is not the documented Q waiver"""
+    import re, shutil, tempfile
+    scratch = os.path.join(os.environ.get("VERIF_SCRATCH", "/var/tmp"), "vp-replay-%s-%d" % (pid, os.getpid()))
+    try:
+        r = subprocess.run([sys.executable, os.path.join(VERIF, "kani", "inject.py"), scratch, "--repo", repo,
+                            "--no-lock-bump"], capture_output=True, text=True)
+        if r.returncode != 0:
+            return None
+        env = dict(os.environ, RUSTFLAGS="--cfg rustzx_verif", CARGO_NET_OFFLINE="true")
+        cmd = ["cargo", "run", "--offline", "--release", "-q", "-p", "rustzx-z80", "--example", "verif_z80diff",
+               "--", "exhaustive-opcodes", str(seed or 1), "300"]
+        p = subprocess.run(cmd, cwd=scratch, env=env, capture_output=True, text=True, timeout=1200)
+        out = p.stdout
+        for m in re.finditer(r"^MISMATCH .*$", out, re.M):
+            line = m.group(0)
+            if re.search(r"field=q\b", line) and re.search(r"opcode=(B0|B1|B8|B9)", line, re.I):
+                continue  # documented Q waiver (repeating LDIR/LDDR/CPIR/CPDR)
+            # attach the detailed block following the first occurrence, if any
+            detail = out[m.end():m.end() + 2500]
+            return dict(kind="z80-step", record=line, detail=detail,
+                        replay_cmd="python3 %s/kani/inject.py /var/tmp/vp-replay-z80 --no-lock-bump >/dev/null && "
+                                   "cd /var/tmp/vp-replay-z80 && RUSTFLAGS='--cfg rustzx_verif' cargo run --offline --release -q "
+                                   "-p rustzx-z80 --example verif_z80diff -- exhaustive-opcodes %s 300 | grep -m1 -A40 '%s'; "
+                                   "rc=$?; rm -rf /var/tmp/vp-replay-z80; test $rc -ne 0"
+                                   % (VERIF, seed or 1, line[:60].replace("'", "")))
+        return None
+    finally:
+        shutil.rmtree(scratch, ignore_errors=True)
+
+
+FINDERS = {"z80": z80_finder}
+
+
 def find_input(pid, failure, repo, seed):
     finder = failure.get("finder")
     if not finder:
         return None
+    if isinstance(finder, str):
+        finder = FINDERS.get(finder)
+        if not finder:
+            return None
     return finder(pid, failure, repo, seed)
 
 
